@@ -165,7 +165,15 @@ def delete_tables_with_prefix(sqlite_db_path: str | Path, prefix: str) -> None:
             (f"{prefix}%",),
         )
         try:
-            tables = [row[0] for row in cursor.fetchall()]
+            # LIKE is only a coarse pre-filter: it is case-insensitive and treats "_" as a
+            # wildcard, and another app_id may itself start with this prefix. A table belongs
+            # to the prefix only if it is ``<prefix>_<name>`` with no further ``__`` marker
+            # (every other app's table carries its own ``<hash>__<component>`` after it).
+            tables = [
+                row[0]
+                for row in cursor.fetchall()
+                if row[0].startswith(f"{prefix}_") and "__" not in row[0][len(prefix) :]
+            ]
         finally:
             try:
                 cursor.close()
